@@ -187,8 +187,93 @@ def _minmax(kind):
     return f
 
 
-BUILTINS = {"abs": _abs, "min": _minmax("min"), "max": _minmax("max"), "len": lambda x: x.shape[0] if isinstance(x, SArr) else len(x),
+def _sum(x):
+    if isinstance(x, GList):
+        return z3.Sum([z3.If(zbool(g), v if is_sym(v) else z3.IntVal(v), 0) for g, v in x.items]) if x.items else 0
+    return sum(x)
+
+
+def _ident_coll(x, *a, **k):
+    return x
+
+
+class MATH:
+    @staticmethod
+    def ceil(x):
+        return _ceil(x)
+    ceil._needs_interp = True
+
+    @staticmethod
+    def floor(x):
+        if isinstance(x, Quot):
+            return x.a / x.b
+        return x
+
+
+_FRESH = itertools.count(1)
+
+
+def _ceil(interp, x):
+    """math.ceil on exact integer quotients / square roots (mathematical semantics; the float
+    computation is exact for operands < 2**52, stated assumption)."""
+    k = next(_FRESH)        # global: sub-interpreters of called functions must not reuse names
+    if isinstance(x, Quot):
+        c = z3.Int(f"ceil{k}")
+        cons = z3.And((c - 1) * x.b < x.a, x.a <= c * x.b)
+    elif isinstance(x, Sqrt):
+        c = z3.Int(f"csqrt{k}")
+        bound = getattr(interp, "int_bound", None)
+        if bound:
+            # linear definition over the bounded domain: c = r  <=>  (r-1)^2 < a <= r^2
+            r, alts = 0, []
+            while r * r < bound + 1 or r == 0:
+                alts.append(z3.And(c == r, x.a > (r - 1) * (r - 1) if r > 0 else x.a <= 0, x.a <= r * r))
+                r += 1
+            alts.append(z3.And(c == r, x.a > (r - 1) * (r - 1), x.a <= r * r))
+            cons = z3.Or(alts)
+        else:
+            cons = z3.And(c >= 0, (c - 1) * (c - 1) < x.a, x.a <= c * c)
+    else:
+        return x
+    interp.solver.add(cons)
+    interp.side.append(cons)
+    return c
+
+
+_ceil._needs_interp = True
+MATH.ceil = staticmethod(_ceil)
+
+BUILTINS = {"sum": _sum, "sorted": _ident_coll, "oset": _ident_coll, "set": lambda *a: (a[0] if a else GList()), "tuple": _ident_coll, "list": _ident_coll,
+            "ceil": _ceil, "abs": _abs, "min": _minmax("min"), "max": _minmax("max"), "len": lambda x: x.shape[0] if isinstance(x, SArr) else len(x),
             "int": lambda x: x, "float": lambda x: x, "bool": lambda x: x, "True": True, "False": False}
+
+
+class GList:
+    """A guarded collection: list of (guard, value).  Element k is present iff guard k holds."""
+
+    def __init__(self, items=None):
+        self.items = list(items or [])
+
+    def append(self, guard, v):
+        self.items.append((guard, v))
+
+    add = append
+
+    def member(self, x):
+        alts = [z3.And(zbool(g), (v == x) if (is_sym(v) or is_sym(x)) else z3.BoolVal(v == x)) for g, v in self.items]
+        return z3.Or(alts) if alts else z3.BoolVal(False)
+
+
+class Quot:
+    """a / b on integers, kept exact (consumed by math.ceil / round / int)."""
+
+    def __init__(self, a, b):
+        self.a, self.b = a, b
+
+
+class Sqrt:
+    def __init__(self, a):
+        self.a = a
 
 
 class Interp:
@@ -201,6 +286,8 @@ class Interp:
         self.side = []
         self._reach = {}
         self._keep = []
+        self.unwind_cap = 64
+        self.functions = {}          # name -> python function whose source is interpreted on call
 
     # ---------- feasibility ----------
     def feasible(self, cond):
@@ -256,6 +343,18 @@ class Interp:
         if op == "Add": return a + b
         if op == "Sub": return a - b
         if op == "Mult": return a * b
+        if op == "Pow" and b == 0.5:
+            return Sqrt(a)
+        if op == "Div":
+            if not is_sym(a) and not is_sym(b):
+                return a / b
+            return Quot(a, b)
+        if op == "FloorDiv":
+            if not is_sym(a) and not is_sym(b):
+                return a // b
+            return a / b            # z3 Int division; operands are positive here
+        if op == "Mod":
+            return a % b
         if op == "RShift":
             return a / (2 ** b) if is_sym(a) else a >> b     # z3 Int '/' is floor div for non-negatives
         if op == "LShift":
@@ -290,6 +389,10 @@ class Interp:
                 "Eq": lambda: a == b, "NotEq": lambda: a != b}[op]()
     def ev_Subscript(self, n, env):
         v = self.ev(n.value, env)
+        if isinstance(n.slice, ast.Slice) and isinstance(v, (tuple, list)):
+            lo = self.ev(n.slice.lower, env) if n.slice.lower else None
+            hi = self.ev(n.slice.upper, env) if n.slice.upper else None
+            return v[lo:hi]
         if isinstance(n.slice, ast.Slice):
             lo = self.ev(n.slice.lower, env) if n.slice.lower else 0
             hi = self.ev(n.slice.upper, env) if n.slice.upper else len(v.cells)
@@ -303,11 +406,83 @@ class Interp:
         if isinstance(v, SArr):
             return v.get(idx, self)
         return v[idx]
+    def _iterate(self, gen, env, guard=True):
+        """yields (guard, env') for one `for target in iter if conds` clause (range or GList)."""
+        it = self.ev(gen.iter, env)
+        out = []
+        if isinstance(it, GList):
+            seq = [(g, v) for g, v in it.items]
+        elif isinstance(it, tuple) and it and it[0] == "range":
+            lo, hi = it[1], it[2]
+            seq = []
+            i = lo if not is_sym(lo) else 0
+            while True:
+                alive = z3.And(zbool(guard), zbool(i < hi))
+                if not self.feasible(alive):
+                    break
+                g = z3.And(zbool(i < hi), zbool(i >= lo)) if is_sym(lo) else zbool(i < hi)
+                seq.append((g, i))
+                i += 1
+                if i > self.unwind_cap:
+                    raise Unsupported("unwinding bound exceeded in comprehension")
+        elif isinstance(it, (list, tuple)):
+            seq = [(True, v) for v in it]
+        else:
+            raise Unsupported("comprehension over " + type(it).__name__)
+        for g, v in seq:
+            e2 = dict(env)
+            e2[gen.target.id] = v
+            gg = z3.And(zbool(guard), zbool(g))
+            for c in gen.ifs:
+                gg = z3.And(gg, zbool(self.ev(c, e2)))
+            gg = z3.simplify(gg)
+            if z3.is_false(gg):
+                continue
+            out.append((gg, e2))
+        return out
+
+    def ev_GeneratorExp(self, n, env):
+        if len(n.generators) != 1:
+            raise Unsupported("nested comprehension")
+        return GList([(g, self.ev(n.elt, e2)) for g, e2 in self._iterate(n.generators[0], env)])
+
+    ev_ListComp = ev_GeneratorExp
+
     def ev_Call(self, n, env):
+        if isinstance(n.func, ast.Name) and n.func.id in self.functions:
+            args = [self.ev(a, env) for a in n.args]
+            return self.call_function(self.functions[n.func.id], args)
         f = self.ev(n.func, env)
         args = [self.ev(a, env) for a in n.args]
         kw = {k.arg: self.ev(k.value, env) for k in n.keywords}
         return f(self, *args, **kw) if getattr(f, "_needs_interp", False) else f(*args, **kw)
+
+    def ev_IfExp(self, n, env):
+        c = self.ev(n.test, env)
+        if not is_sym(c):
+            return self.ev(n.body if c else n.orelse, env)
+        return ite(c, self.ev(n.body, env), self.ev(n.orelse, env))
+
+    def ev_List(self, n, env):
+        if n.elts:
+            return [self.ev(e, env) for e in n.elts]
+        return GList()
+
+    def call_function(self, pyfunc, args):
+        import inspect as _inspect
+        target = getattr(pyfunc, "__wrapped__", getattr(pyfunc, "py_func", pyfunc))
+        src = textwrap.dedent(_inspect.getsource(target))
+        src = src[src.index("def " + target.__name__):]
+        sub = Interp(src, self.globs, self.solver)
+        sub.functions = self.functions
+        sub.module_globals = getattr(self, "module_globals", None)
+        sub.unwind_cap = self.unwind_cap
+        sub.int_bound = getattr(self, "int_bound", None)
+        names = [a.arg for a in sub.tree.args.args]
+        sub.run(dict(zip(names, args)))
+        self.n_feas += sub.n_feas
+        self.side += sub.side
+        return sub.retval
 
     # ---------- statements ----------
     def run(self, args):
@@ -353,7 +528,15 @@ class Interp:
     def stmt(self, s, env, guard, fr, loop):
         t = type(s).__name__
         if t == "Expr":
-            return
+            v = s.value
+            if isinstance(v, ast.Call) and isinstance(v.func, ast.Attribute) and v.func.attr in ("append", "add"):
+                obj = self.ev(v.func.value, env)
+                if isinstance(obj, GList):
+                    obj.append(guard, self.ev(v.args[0], env))
+                    return
+            if isinstance(v, ast.Constant):
+                return
+            raise Unsupported("expression statement")
         if t == "Assign":
             val = self.ev(s.value, env)
             for tg in s.targets:
@@ -401,7 +584,7 @@ class Interp:
                     self.assign(s.target, i, env, True)   # loop var only read under g
                     self.block(s.body, env, z3.simplify(g), fr, lp)
                 i += 1
-                if i > 64:
+                if i > self.unwind_cap:
                     raise Unsupported("unwinding bound exceeded")
             return
         if t == "While":
@@ -440,6 +623,7 @@ def _range(*a):
 
 class NP:
     int64 = "int64"
+    array = staticmethod(lambda x, *a, **k: x)
     @staticmethod
     def empty(shape, dtype=None):
         dt = dtype if dtype in ("real", "fp32", "fp64") else ("int" if dtype == "int64" else None)
